@@ -178,3 +178,16 @@ def msg_field(m: Any, name: str) -> Any:
 def msg_written(m: Any) -> Any:
     """ghost: some field of this message object was written (so it is present in its parent)"""
     return getattr(m, "$written")
+
+
+def which_tag(m: Any, oneof: str) -> Any:
+    """oneof state as an integer: 0 = unset, i = 1-based index of the member that is set (for both concrete and
+    symbolic messages)"""
+    pm = m._env.eng.protomodel
+    o = m._obj()
+    w = o.get("$which:" + oneof)
+    if w is None:
+        return z3.IntVal(0)
+    if isinstance(w, str):
+        return z3.IntVal(pm.oneofs(o.cls)[oneof].index(w) + 1)
+    return w
